@@ -98,7 +98,9 @@ def gen_sel(rng, fns="fgh", names=("a", "b", "p"), focus=True, maxdepth=3, conds
         r = rng.random()
         if r < generic:
             cat = rng.choice(["T", "P"]) if rng.random() < 0.6 else ""
-            return cap("", key(), tag, cat=cat)
+            # a generic capture takes every variable, whatever its value is: only equality is meaningful for all of them
+            cd = mkcond()
+            return cap("", key(), tag, cat=cat, cond=cd if cd and cd["k"] == "eq" else None)
         if r < generic + metas and tag:
             return cap(rng.choice(["#enter", "#exit", "#value", "#error", "#loop_i", "#endloop_i"]), key(), tag)
         nm = rng.choice(list(names))
